@@ -181,9 +181,10 @@ def differential(c, focus, n_hist, backends, cfgs, weights=None, lengths=(4, 22)
                         '%s answered %s where the documented error class is %s (backend %s)' % (rq['op'], resp if got is None else got, exp, be),
                         {'backend': be, 'history': h[:i + 1], 'before': prev, 'response': resp, 'expected': exp})
         if judge:
-          jr = {'op': 'judge', 'before': prev, 'after': after}
+          jr = {'op': 'judge', 'before': prev, 'after': after, 'req': rq}
+          if rq['op'] == 'suggest':
+            jr['handed'] = []
           if rq['op'] == 'suggest' and resp.get('k') == 'op':
-            jr['req'] = rq
             jr['handed'] = resp.get('handed', [])
             st = next((s for s in prev['studies'] if s['owner'] == rq.get('owner', 'o') and s['sid'] == rq.get('sid', 's')), None)
             no_pending = st is not None and all(o['done'] for o in st['ops'])
@@ -191,7 +192,7 @@ def differential(c, focus, n_hist, backends, cfgs, weights=None, lengths=(4, 22)
                 u['t'] is None or (st is not None and any(t['id'] == u['t'] for t in st['trials'])) for u in rq['alg'].get('delta', []))
             jr['countApplies'] = bool(no_pending and delta_ok and resp['v']['done'])
           judge_reqs.append(jr)
-          judge_ctx.append((hi, be, i))
+          judge_ctx.append((hi, be, i, exp, resp))
         prev = after
     if check_backends_equal and len(backends) > 1:
       base = reals[(hi, backends[0])]
@@ -208,11 +209,22 @@ def differential(c, focus, n_hist, backends, cfgs, weights=None, lengths=(4, 22)
     nontriv = len(kinds & {'suggest', 'complete', 'deleteTrial', 'deleteStudy', 'checkEarlyStop'}) >= 2
     c.count(0, ('hist', hi) if nontriv else None)
   verdicts = c.lean('Svc', judge_reqs) if judge_reqs else []
-  for (hi, be, i), v in zip(judge_ctx, verdicts):
+  for (hi, be, i, exp_py, resp_i), v in zip(judge_ctx, verdicts):
     if 'error' in v:
       raise core.InfraError('judge: %s' % v)
     h = hists[hi]
     rq = h[i]
+    # the documented error table as proved (c01_error_table, evaluated by the Lean driver on the REAL
+    # snapshot) must be the table the harness judged with, and the real response must obey it
+    spec = tuple(v['specError']) if v.get('specError') else None
+    if spec != exp_py:
+      c.tie_break('documented error table: Lean specError vs harness expected_error', {'history': h[:i + 1], 'backend': be}, exp_py, spec)
+    if spec is not None:
+      got = (resp_i.get('code'), resp_i.get('via')) if resp_i.get('k') == 'err' else None
+      if got != spec:
+        c.prop_fail('wrong-error-class:' + rq['op'],
+                    '%s answered %s where the documented error class (c01_error_table) is %s (backend %s)' % (rq['op'], resp_i if got is None else got, spec, be),
+                    {'backend': be, 'history': h[:i + 1], 'response': resp_i, 'expected': list(spec)})
     ctx = {'backend': be, 'history': h[:i + 1], 'bad': v.get('bad')}
     if focus in ('C01', 'C06', 'C07'):
       if not v['lifecycle']:
